@@ -248,7 +248,7 @@ def runSection (r : Report) (sec : Section) : Report := Id.run do
       match parseObs (if conc then concObs l.obs else l.obs) with
       | none => r := r.violation sec.idx l.idx s!"unreadable observation [{impl}] op=[{joinSp l.op}]"
       | some o =>
-        let m := Spec.monStep c report mon op o
+        let m := Spec.monStep c report mon op n o
         for v in m.2.1 do r := r.violation sec.idx l.idx s!"{v} op=[{joinSp l.op}] impl=[{impl}]"
         for t in m.2.2 do r := r.addCover t
         mon := m.1
